@@ -404,11 +404,11 @@ impl<'a, S: Sut> Runner<'a, S> {
                 ));
             }
         }
-        let (exp_p, alt_p, rd) = if self.poisoned {
-            (qt.nar(), qt.nar(), None)
+        let (exp_p, rd) = if self.poisoned {
+            (qt.nar(), None)
         } else {
             let rd = round_exact(qt, &self.r);
-            (rd.posit, rd.by_value, Some(rd))
+            (rd.posit, Some(rd))
         };
         if let Some(rd) = rd {
             if rd.sat_max {
@@ -432,12 +432,6 @@ impl<'a, S: Sut> Runner<'a, S> {
         }
         for (via, p) in [(0, p0), (1, p1), (2, p2), (3, p3)] {
             if p != exp_p {
-                if p == alt_p {
-                    // narrow tolerance (DESIGN §5.3): exponent bits cut off by the regime, and the
-                    // implementation returned the value-nearest neighbour
-                    self.st.hit(Pr::rnd_cut_alt_accepted);
-                    continue;
-                }
                 return Err(self.fail(
                     Clause::ToPosit,
                     step,
@@ -813,34 +807,11 @@ impl<'a, S: Sut> Runner<'a, S> {
                 if three && p3.posit != 0 {
                     self.st.hit(Pr::split_p3);
                 }
-                // tolerance bookkeeping: if any stage is in the cut zone with two readings, the
-                // chain is ambiguous; accept the chain computed with the value-nearest reading too
-                let chain = |first_by_value: bool, second_by_value: bool| -> (u32, u32, u32) {
-                    let a1 = if first_by_value { p1.by_value } else { p1.posit };
-                    let s1 = self.r.sub(&posit_units(qt, a1).unwrap());
-                    let q2 = round_exact(qt, &s1);
-                    let a2 = if second_by_value { q2.by_value } else { q2.posit };
-                    let s2 = s1.sub(&posit_units(qt, a2).unwrap());
-                    let q3 = round_exact(qt, &s2);
-                    (a1, a2, q3.posit)
-                };
-                let strict = chain(false, false);
-                debug_assert_eq!(strict, (p1.posit, p2.posit, p3.posit));
+                let strict = (p1.posit, p2.posit, p3.posit);
                 if three {
                     match catch(|| S::from_img(&img, 0).split3()) {
                         Ok(o) => {
-                            let ok = o == strict
-                                || o == chain(true, false)
-                                || o == chain(false, true)
-                                || o == chain(true, true)
-                                || {
-                                    let c = chain(false, false);
-                                    // last stage by value
-                                    let s1 = self.r.sub(&posit_units(qt, c.0).unwrap());
-                                    let s2 = s1.sub(&posit_units(qt, c.1).unwrap());
-                                    (c.0, c.1, round_exact(qt, &s2).by_value) == o
-                                };
-                            if !ok {
+                            if o != strict {
                                 return Err(self.fail(
                                     clause,
                                     step,
@@ -848,32 +819,19 @@ impl<'a, S: Sut> Runner<'a, S> {
                                     format!("({:x}, {:x}, {:x})", o.0, o.1, o.2),
                                 ));
                             }
-                            if o != strict {
-                                self.st.hit(Pr::rnd_cut_alt_accepted);
-                            }
                         }
                         Err(m) => return Err(self.fail(Clause::PanicState, step, "into_three_posits returns".into(), format!("panic: {m}"))),
                     }
                 } else {
                     match catch(|| S::from_img(&img, 0).split2()) {
                         Ok(o) => {
-                            let alt1 = chain(true, false);
-                            let alt2 = chain(false, true);
-                            let alt3 = chain(true, true);
-                            let ok = o == (strict.0, strict.1)
-                                || o == (alt1.0, alt1.1)
-                                || o == (alt2.0, alt2.1)
-                                || o == (alt3.0, alt3.1);
-                            if !ok {
+                            if o != (strict.0, strict.1) {
                                 return Err(self.fail(
                                     clause,
                                     step,
                                     format!("into_two_posits = ({:x}, {:x}) (sum = {} units)", strict.0, strict.1, self.r.hex()),
                                     format!("({:x}, {:x})", o.0, o.1),
                                 ));
-                            }
-                            if o != (strict.0, strict.1) {
-                                self.st.hit(Pr::rnd_cut_alt_accepted);
                             }
                         }
                         Err(m) => return Err(self.fail(Clause::PanicState, step, "into_two_posits returns".into(), format!("panic: {m}"))),
